@@ -98,11 +98,10 @@ theorem gpc_upper_validate_lists (E : Env) (X Y Z : Nat) (hE : EnvPy E X Y Z) (S
 theorem gpc_exact_validate_lists (E : Env) (X Y Z : Nat) (hE : EnvPy E X Y Z) (S : LeafSpec (leafEval E) (PyGL E))
     (m : M) (g : VC) (hg : M.Good (PyGL E) m)
     (hvars : ∀ n ∈ M.vars m, pyNames.contains n = true)
-    (hne : ∀ d, dnf defaultFuel [] m = .ok d → d ≠ .empty)
     (h : gpc m = .ok g) : M.validate E m = .ok (g.allowsPlain (pyV X Y Z)) := by
   rw [M.validate_eq_sem E m (pyGL_evaluable E m hg)]
   congr 1
-  refine gpc_exact_alts S X Y Z m g hg hvars (fun l hl hk => leafAlts_of_comp E X Y Z hE l hl.1 hl.2 hk) hne ?_ h
+  refine gpc_exact_alts S X Y Z m g hg hvars (fun l hl hk => leafAlts_of_comp E X Y Z hE l hl.1 hl.2 hk) ?_ h
   intro d hd l hl
   have hv := dnf_vars S (fun l hl => by obtain ⟨⟨_, _, _, _, hc⟩, _⟩ := hl; exact hc) _ _ m d hg hd l.name
     (leaf_name_mem_vars d l hl)
